@@ -7,6 +7,7 @@ from sa.model import AnalysisError, Unknown, norm, unwrap
 from sa.query import Facts, call_name, find_calls, try_fold, calls_in, defs_of
 from sa.atoms import AtomExtractor, PathEnv, Atom
 from .c06 import _strip
+from sa.prov import Prov
 from .common import (protocol_classes, device_touching, command_methods, doc)
 from .c04 import value_set, doc_codes
 
@@ -50,6 +51,7 @@ def run(run):
         _exhaustive(run, pc, ver, maps, docs)
         _no_device(run, pc, maps, dev)
     _dispatch(run, F)
+    _wire_format(run)
     _second_stage(run, F, X, dev)
     _bip32(run, F)
 
@@ -152,6 +154,37 @@ def _gate(run, F, X, pc, vk, spec):
               key="_RequestHandler.handle|readline-limit", where=hh.loc(),
               message=f"the request is read with {[norm(c)[:40] for c in rl]}: a size limit truncates long valid requests (e.g. updateAncestorBlock with many "
                       "blocks), which are then answered with the format-error code instead of their own verdict")
+
+
+def _wire_format(run):
+    """The request handed to the protocol is json.loads of the line decoded as UTF-8 text (a str): given bytes json.loads would sniff
+    UTF-8-BOM / UTF-16 / UTF-32 and accept documents the wire format does not allow."""
+    P, A = run.P, run.A
+    RH = P.cls("comm.server._RequestHandler")
+    hh = P.method(RH, "handle")
+    g = A.cfg(hh, RH)
+    PVh = Prov(A)
+    jl = [c for c in find_calls(A, hh, "loads") if norm(c.func) == "json.loads"]
+    run.floor("R1", "json.loads sites in the request handler", len(jl), 1)
+    enc = P.class_const(RH, "ENCODING")
+    run.check("R1", enc == "utf-8", "wire encoding is UTF-8", key="_RequestHandler.ENCODING", where=hh.loc(), message=f"_RequestHandler.ENCODING is {enc!r}")
+    rfile = hh.params[2] if len(hh.params) > 2 else "rfile"
+    for c in jl:
+        for cn in g.nodes_of(c):
+            got = {_strip(x) for x in PVh.expand_consistent(hh, RH, c.args[0], cn)} if c.args else set()
+            want = {_strip(f"{rfile}.readline().strip().decode(self.ENCODING)"), _strip(f"{rfile}.readline().decode(self.ENCODING).strip()")}
+            run.check("R1", bool(got) and got <= want and not c.keywords and len(c.args) == 1, "the document parsed is the request line decoded as UTF-8 text",
+                      key="_RequestHandler.handle|json-source", where=hh.loc(c),
+                      message=f"json.loads is given {sorted(got)[:1]}, not the line decoded with the wire encoding: raw bytes make json.loads sniff the encoding "
+                              "(BOM, UTF-16/32 accepted), other sources are not the client's request")
+    dp = [c for c in find_calls(A, hh, "handle_request")]
+    for c in dp:
+        for cn in g.nodes_of(c):
+            got = {_strip(x) for x in PVh.expand_consistent(hh, RH, c.args[0], cn, stop=("data", "line"))} if c.args else set()
+            run.check("R1", got == {"json.loads(data)"} or got == {_strip("json.loads(line.decode(self.ENCODING))")} or
+                      all(x.startswith("json.loads(") for x in got) and bool(got), "the protocol receives the parsed document itself",
+                      key="_RequestHandler.handle|dispatch-source", where=hh.loc(c),
+                      message=f"handle_request is given {sorted(got)[:1]}, not the parsed request")
 
 
 def _atom_fail_codes(run, X, F, fn, pc, env):
